@@ -243,6 +243,138 @@ def check_tree(case):
         return {"nontrivial": nt, "labels": [kind, f"J{len(js)}"], "sample": {"present": present, "js": js, "imports": case["imports"]}}
 
 
+# ---------------------------------------------------------------------------------------------
+# exact content at sizes around read-buffer boundaries: a multi-byte (or invalid) sequence straddling 4 KiB ... 256 KiB
+BOUNDARIES = [4096, 8192, 16384, 32768, 65536, 131072, 262144]
+STRADDLERS = ["c3a9", "e282ac", "f09f9880", "e4b8ad", "c3", "e282", "f09f98", "ff", "80", "eda080", "c080", "f4908080", "0d0a", "00"]
+
+
+@st.composite
+def content_case(draw):
+    b = draw(st.sampled_from(BOUNDARIES + [65536, 65536]))
+    return {"boundary": b, "back": draw(st.integers(0, 4)), "what": draw(st.sampled_from(STRADDLERS)), "extra": draw(st.integers(0, 6)),
+            "second": draw(st.sampled_from([None, None, 2, 3])) if b <= 65536 else None, "fill": draw(st.sampled_from(["a", "xy", "0123456789", "\n", " "])),
+            "spelling": draw(st.sampled_from(["plain", "dot", "abs", "jdir"]))}
+
+
+def check_content(case):
+    import hashlib
+    b = case["boundary"]
+    unit = bytes.fromhex(case["what"])
+    fill = case["fill"].encode()
+    start = b - case["back"]
+    head = (fill * (start // len(fill) + 1))[:start]
+    data = head + unit + (fill * 8)[:case["extra"]]
+    if case["second"]:
+        # the same sequence again across the next multiple of the boundary
+        start2 = case["second"] * b - case["back"]
+        if start2 > len(data):
+            data = data + (fill * ((start2 - len(data)) // len(fill) + 1))[:start2 - len(data)] + unit + fill[:1]
+    text = data.decode("utf-8", "replace")
+    with tempfile.TemporaryDirectory(prefix="c13c-") as d:
+        d = os.path.realpath(d)
+        os.mkdir(os.path.join(d, "lib"))
+        where = os.path.join(d, "lib" if case["spelling"] == "jdir" else "", "data.bin")
+        with open(where, "wb") as f:
+            f.write(data)
+        path = {"plain": "data.bin", "dot": "./data.bin", "abs": where, "jdir": "data.bin"}[case["spelling"]]
+        jargs = ["-J", "lib"] if case["spelling"] == "jdir" else []
+        with open(os.path.join(d, "main.jsonnet"), "w") as f:
+            f.write("importstr '%s'" % path)
+        with open(os.path.join(d, "bin.jsonnet"), "w") as f:
+            f.write("local b = importbin '%s'; {n: std.length(b), around: b[%d:%d], sum: std.md5(std.base64(b)), "
+                    "md5: std.md5(importstr '%s'), same: std.decodeUTF8(b) == importstr '%s'}" % (path, max(0, start - 2), start + len(unit) + 2, path, path))
+        what = f"{len(data)}-byte file with {case['what']} at offset {start} (boundary {b}), spelled {case['spelling']}"
+        rc, out, err = run(jargs + ["-S", "--no-trailing-newline", "main.jsonnet"], d)
+        basic_sanity(rc, out, err, what)
+        if rc != 0:
+            raise Violation("importstr-fails", f"importstr of a {what} failed: {err.decode('utf-8', 'replace')[-300:]}")
+        if out != text.encode("utf-8"):
+            got = out.decode("utf-8", "replace")
+            i = next((k for k in range(min(len(got), len(text))) if got[k] != text[k]), min(len(got), len(text)))
+            raise Violation("importstr-content", f"importstr of a {what}: {len(got)} characters, expected {len(text)}; first difference at character {i}: "
+                                                 f"{got[max(0, i - 3):i + 4]!a} vs {text[max(0, i - 3):i + 4]!a}")
+        rc, out, err = run(jargs + ["-s", "2000", "bin.jsonnet"], d)
+        basic_sanity(rc, out, err, what)
+        if rc != 0:
+            raise Violation("importbin-fails", f"importbin of a {what} failed: {err.decode('utf-8', 'replace')[-300:]}")
+        import json as _json
+        got = _json.loads(out)
+        import base64
+        exp = {"n": len(data), "around": list(data[max(0, start - 2):start + len(unit) + 2]), "sum": hashlib.md5(base64.b64encode(data)).hexdigest(), "md5": hashlib.md5(text.encode("utf-8")).hexdigest(), "same": True}
+        if got != exp:
+            raise Violation("importbin-content", f"importbin / importstr of a {what}: {got}, expected {exp}")
+    return {"nontrivial": True, "labels": [f"b={b}", case["what"]], "sample": what}
+
+
+# ---------------------------------------------------------------------------------------------
+# importers without a directory of their own (-e code, standard input, external / top-level code): absolute paths bypass the
+# search, relative ones are looked up in the -J directories, right-most first
+@st.composite
+def virtual_case(draw):
+    return {"importer": draw(st.sampled_from(["-e", "stdin", "ext-code", "tla-code", "ext-code-file"])), "js": draw(st.lists(st.sampled_from(JDIRS), max_size=3)),
+            "present": draw(st.lists(st.sampled_from(JDIRS + ["cwd"]), max_size=3, unique=True)), "kind": draw(st.sampled_from(["import", "importstr", "importbin"])),
+            "path": draw(st.sampled_from(["abs", "abs", "abs-missing", "rel", "rel", "abs-dotdot"])), "target": draw(st.sampled_from(JDIRS + ["cwd"]))}
+
+
+def check_virtual(case):
+    kind = case["kind"]
+    with tempfile.TemporaryDirectory(prefix="c13v-") as d:
+        d = os.path.realpath(d)
+        for j in JDIRS:
+            os.mkdir(os.path.join(d, j))
+        for p in set(case["present"]) | ({case["target"]} if case["path"] in ("abs", "abs-dotdot") else set()):
+            with open(os.path.join(d, "" if p == "cwd" else p, "lib.libsonnet"), "w") as f:
+                f.write('"%s"' % p if kind == "import" else "content of %s" % p)
+        tdir = os.path.join(d, "" if case["target"] == "cwd" else case["target"])
+        if case["path"] == "abs":
+            path, expect = os.path.join(tdir, "lib.libsonnet"), case["target"]
+        elif case["path"] == "abs-dotdot":
+            path, expect = os.path.join(d, "j0", "..", "" if case["target"] == "cwd" else case["target"], "lib.libsonnet"), case["target"]
+        elif case["path"] == "abs-missing":
+            path, expect = os.path.join(d, "nowhere", "lib.libsonnet"), None
+        else:
+            path = "lib.libsonnet"
+            expect = next((j for j in reversed(case["js"]) if j in case["present"]), None)
+            if expect is None and "cwd" in case["present"]:
+                return {"labels": ["not-judged:relative-from-virtual-importer-with-file-in-cwd"]}
+        code = "%s '%s'" % (kind, path)
+        jargs = [x for j in case["js"] for x in ("-J", j)]
+        stdin = None
+        if case["importer"] == "-e":
+            args = jargs + ["-e", code]
+        elif case["importer"] == "stdin":
+            args, stdin = jargs + ["-"], code.encode()
+        elif case["importer"] == "ext-code":
+            args = jargs + ["--ext-code", "x=" + code, "-e", "std.extVar('x')"]
+        elif case["importer"] == "tla-code":
+            args = jargs + ["--tla-code", "x=" + code, "-e", "function(x) x"]
+        else:
+            os.mkdir(os.path.join(d, "extdir"))
+            with open(os.path.join(d, "extdir", "ext.jsonnet"), "w") as f:
+                f.write(code)
+            args = jargs + ["--ext-code-file", "x=extdir/ext.jsonnet", "-e", "std.extVar('x')"]
+            if case["path"] == "rel":
+                return {"labels": ["not-judged:ext-code-file-has-a-directory"]}
+        rc, out, err = run(args, d, stdin=stdin)
+        what = f"{code!r} from {case['importer']} with -J {case['js']}, lib.libsonnet present in {sorted(case['present'])}"
+        basic_sanity(rc, out, err, what)
+        if expect is None:
+            if rc != 1:
+                raise Violation("virtual-import-exit", f"{what}: nothing to resolve to, expected exit 1, got {rc}: {out[:100]!r}")
+            return {"nontrivial": True, "labels": [case["importer"], case["path"], "missing"], "sample": what}
+        if rc != 0:
+            raise Violation("virtual-import-fails", f"{what}: expected the copy in {expect!r}, got exit {rc}: {err.decode('utf-8', 'replace')[-300:]}")
+        import json as _json
+        got = _json.loads(out)
+        want = expect if kind == "import" else ("content of %s" % expect if kind == "importstr" else list(("content of %s" % expect).encode()))
+        if got != want:
+            raise Violation("virtual-import-resolution", f"{what}: got {got!r}, expected {want!r}")
+    return {"nontrivial": True, "labels": [case["importer"], case["path"]], "sample": what}
+
+
 CHECKS = [
     Check("import_trees", check_tree, tree_case, quick=250, thorough=5000),
+    Check("content_at_buffer_boundaries", check_content, content_case, quick=12, thorough=400),
+    Check("importers_without_a_directory", check_virtual, virtual_case, quick=60, thorough=1500),
 ]
